@@ -92,7 +92,14 @@ def make_fe_circuit(rng: np.random.Generator, n: int, nops: int) -> Any:
         if r < 0.55:
             w = int(rng.integers(1, min(n, 4) + 1))
             sub = rand_block(rng, w)
-            c.append_gate(CircuitGate(sub), gen.rand_location(rng, n, w), sub.params)
+            params = sub.params
+            # a block re-parameterised after it was formed (set_params /
+            # instantiate on the outer circuit, or a block gate placed with
+            # explicit angles): the operation's parameters, not the ones
+            # stored inside the gate, say what the block is
+            if sub.num_params and rng.random() < 0.4:
+                params = gen.rand_params(rng, sub.num_params, 'generic')
+            c.append_gate(CircuitGate(sub), gen.rand_location(rng, n, w), params)
         elif r < 0.83:
             k = int(rng.integers(1, min(n, 3) + 1))
             pool = {1: gen.Q1, 2: gen.Q2, 3: gen.Q3}[k]
@@ -282,6 +289,9 @@ def eval_foreach(case: dict[str, Any], cin: Any, cout: Any, data: Any, log: list
         expected: list[dict[str, Any]] = []
         for cyc, op in blocks:
             sub = sub_of(op)
+            if isinstance(op.gate, CircuitGate) and op.gate._circuit.num_params and \
+                    not np.allclose(op.params, op.gate._circuit.params):
+                cnt['blocks_with_params_differing_from_stored_ones'] += 1
             e: dict[str, Any] = {'cycle': cyc, 'op': op, 'fps': []}
             for j, (kind, arg) in enumerate(p['body']):
                 fp = wl.fingerprint(sub)
@@ -1113,6 +1123,7 @@ def main(tier: str, seed: int, replay: str | None = None) -> int:
         ('writeback_checks', 50), ('error_bound_checks_with_distance', 10), ('failing_body_error_reached_client', 1),
         ('control_states_compared', 50), ('side_channel_checks', 50), ('dtd_rejected', 10), ('dtd_accepted', 10),
         ('loop_iterations', 10), ('node_par', 10), ('node_if', 10), ('par_pick_first', 3),
+        ('blocks_with_params_differing_from_stored_ones', 5),
     ):
         run.require(c_, m)
     return run.finish(
